@@ -2431,9 +2431,9 @@ func rulePXImportBlock(c *Ctx) []Obligation {
 		_ = out
 		got := strings.Join(stream, "")
 		// preamble
-		pre3 := fact3(F, "empty(recv.cgoPreamble)")
+		pre3 := fact3(F, "empty(recv."+c.ff("preamble")+")")
 		if !pre3[1] {
-			if v, ok := F["lt(0,len(recv.cgoPreamble))"]; ok {
+			if v, ok := F["lt(0,len(recv."+c.ff("preamble")+"))"]; ok {
 				pre3 = [2]bool{!v, true}
 			}
 		}
@@ -2443,7 +2443,7 @@ func rulePXImportBlock(c *Ctx) []Obligation {
 		}
 		hasPre := !pre3[0]
 		nPre := 0
-		for strings.Contains(got, fmt.Sprintf("⟦render|recv.cgoPreamble[%d]⟧", nPre)) {
+		for strings.Contains(got, fmt.Sprintf("⟦render|recv.%s[%d]⟧", c.ff("preamble"), nPre)) {
 			nPre++
 		}
 		// expected main block
@@ -2540,10 +2540,10 @@ func rulePXImportBlock(c *Ctx) []Obligation {
 		want := ""
 		if hasPre {
 			for j := 0; j < nPre; j++ {
-				want += fmt.Sprintf("⟦render|recv.cgoPreamble[%d]⟧\n", j)
+				want += fmt.Sprintf("⟦render|recv.%s[%d]⟧\n", c.ff("preamble"), j)
 			}
 			want += "import \"C\"\n\n"
-			exhausted := F.Has(fmt.Sprintf("lt(%d,len(recv.cgoPreamble))", nPre), false) || (nPre == 0 && false)
+			exhausted := F.Has(fmt.Sprintf("lt(%d,len(recv.%s))", nPre, c.ff("preamble")), false) || (nPre == 0 && false)
 			t.note("with a preamble: every preamble comment, each followed by exactly one newline, then `import \"C\"` directly", rest == want && exhausted, "path %s prints %q after the main block (expected %q; all %d comments printed: %v)", traceOf(p), rest, want, nPre, exhausted)
 		} else {
 			t.note("without a preamble nothing follows the main block", rest == "", "path %s prints %q after the main block", traceOf(p), rest)
@@ -2573,4 +2573,136 @@ func commentSource(deep string) string {
 		return "?" + deep
 	}
 	return rest[:j]
+}
+
+
+// ---------------------------------------------------------------------------------------------
+// P-FILERENDER-ORDER on paths of File.Render
+
+func rulePXFileRender(c *Ctx) []Obligation {
+	o := c.newObs("P-FILERENDER-ORDER")
+	f := c.method("File", "Render")
+	ri := c.role("renderImports")
+	if f == nil || ri == nil {
+		o.undecided("(*jen.File).Render", "anchor", token.NoPos, "anchor lost: File.Render / the import block printer")
+		return o.list
+	}
+	fn := fname(f)
+	hF, dF, nF := "recv."+c.ff("headers"), "recv."+c.ff("comments"), "recv."+c.ff("name")
+	paths, trunc := c.Paths(f, PXConfig{SkipErrEdges: true, Opaque: c.stdOpaque(ri), MaxVisits: 4, MaxDepth: 5, MaxPaths: 40000})
+	if trunc || len(paths) == 0 {
+		o.undecided(fn, "path enumeration", f.Pos(), "%d paths, truncated %v", len(paths), trunc)
+		return o.list
+	}
+	t := newTally(o, fn, f.Pos())
+	for _, p := range paths {
+		if !successPath(p) {
+			continue
+		}
+		F := p.Facts
+		// the assembled source text: what is formatted, or written raw
+		var src *T
+		bodyAt, impAt := -1, -1
+		for i, e := range p.Events {
+			switch {
+			case e.Kind == "call" && e.Name == "go/format.Source" && len(e.Args) == 1:
+				src = e.Args[0]
+			case e.Kind == "write" && e.Writer.String() == "p0" && src == nil:
+				src = e.Data
+			case e.Kind == "call" && e.Fn == ri:
+				impAt = i
+			case e.Kind == "call" && e.Fn != nil && e.Fn.Name() == c.renderName() && len(e.Args) >= 2 && strings.HasPrefix(e.Args[0].String(), "recv") && bodyAt < 0:
+				bodyAt = i
+			}
+		}
+		if src == nil || bodyAt < 0 || impAt < 0 {
+			t.note("the file is assembled from its body and its import block", false, "path %s: source found %v, body render %d, import block %d", traceOf(p), src != nil, bodyAt, impAt)
+			continue
+		}
+		t.note("the body is rendered before the import block is printed (imports are registered while the body renders)", bodyAt < impAt, "path %s prints the import block first", traceOf(p))
+		// nothing else that could register runs: every other render call is of a comment-only value
+		okOnlyComments := true
+		for i, e := range p.Events {
+			if i == bodyAt || i == impAt {
+				continue
+			}
+			if (e.Kind == "call" && e.Fn != nil && e.Fn.Name() == c.renderName()) || (e.Kind == "invoke" && e.Name == c.renderName()) {
+				d := ""
+				if e.Recv != nil {
+					d += p.Deep(e.Recv) + " "
+				}
+				for _, a := range e.Args[:1] {
+					d += p.Deep(a)
+				}
+				if strings.HasPrefix(commentSource(d), "?") {
+					okOnlyComments = false
+				}
+			}
+			if e.Kind == "call" && e.Fn == c.registerFn() {
+				okOnlyComments = false
+			}
+		}
+		t.note("besides the body, only comment-only values are rendered (nothing else can register an import)", okOnlyComments, "path %s renders something else", traceOf(p))
+		// tokens of the source text
+		got := ""
+		for _, sg := range termTemplate(src) {
+			if sg.Val != nil && sg.Val.Op == "call" && sg.Val.Aux == "rendered" && len(sg.Val.A) == 1 {
+				call := sg.Val.A[0]
+				switch {
+				case call.String() == p.Events[bodyAt].Res.String():
+					got += "⟦BODY⟧"
+				case call.String() == p.Events[impAt].Res.String():
+					got += "⟦IMPORTS⟧"
+				default:
+					d := ""
+					for _, a := range call.A {
+						d += p.Deep(a) + " "
+					}
+					got += "⟦" + commentSource(d) + "⟧"
+				}
+				continue
+			}
+			got += segToken(sg)
+		}
+		nh, nd := 0, 0
+		for strings.Contains(got, fmt.Sprintf("⟦%s[%d]⟧", hF, nh)) {
+			nh++
+		}
+		for strings.Contains(got, fmt.Sprintf("⟦%s[%d]⟧", dF, nd)) {
+			nd++
+		}
+		exhausted := func(list string, n int) bool {
+			if n == 0 {
+				return F.Has("empty("+list+")", true) || F.Has("lt(0,len("+list+"))", false)
+			}
+			return F.Has(fmt.Sprintf("lt(%d,len(%s))", n, list), false)
+		}
+		canon := fact3(F, "empty(recv.CanonicalPath)")
+		if !canon[1] {
+			t.note("every path decides whether a canonical import path is set", false, "path %s assembles %q without that test", traceOf(p), got)
+			continue
+		}
+		want := ""
+		for i := 0; i < nh; i++ {
+			want += fmt.Sprintf("⟦%s[%d]⟧\n", hF, i)
+		}
+		if nh > 0 {
+			want += "\n"
+		}
+		for i := 0; i < nd; i++ {
+			want += fmt.Sprintf("⟦%s[%d]⟧\n", dF, i)
+		}
+		want += "package ⟦s|" + nF + "⟧"
+		if !canon[0] {
+			want += " // import ⟦q|recv.CanonicalPath⟧"
+		}
+		want += "\n\n⟦IMPORTS⟧⟦BODY⟧"
+		t.note("the file is: header comments (one per line), a blank line iff there are headers, package comments, `package name`, ` // import \"path\"` iff a canonical path is set, a blank line, the import block, the body", got == want && exhausted(hF, nh) && exhausted(dF, nd),
+			"path %s assembles %q; expected %q (all %d headers / %d package comments included: %v / %v)", traceOf(p), got, want, nh, nd, exhausted(hF, nh), exhausted(dF, nd))
+	}
+	t.require("the file is: header comments (one per line), a blank line iff there are headers, package comments, `package name`, ` // import \"path\"` iff a canonical path is set, a blank line, the import block, the body",
+		"the body is rendered before the import block is printed (imports are registered while the body renders)")
+	t.flush()
+	c.checkArityIndependence(o, f)
+	return o.list
 }
